@@ -194,3 +194,30 @@ Definition c19_counts : list (string * N * N * N) :=
                    N.of_nat (List.length (filter (fun r => snd r && match fst r with Structural => true | _ => false end) rs)))
                 | None => (f, 0, 0, 0)%N
                 end) c19_functions.
+
+(* ------------------------------------------------------------------------------------------------------------
+   Frozen witnesses of the two "requires an explicit algorithm" flags on the pinned tree (hand-copied fragments,
+   independent of the regenerated table): unary.py:228-246 registers
+       exp(A: LinearOperator, alg: Algorithm = Auto())   -> signatures (LinearOperator, Algorithm) and (LinearOperator)
+       exp(A: KronSum, alg: Algorithm)                   -> signature  (KronSum, Algorithm) only
+   hints: 0 LinearOperator, 1 Algorithm, 2 KronSum; reps: 1 a KronSum operator, 2 an Auto() object. *)
+Definition pin19_le (a : N) : N := match a with 0 => 0x1 | 1 => 0x2 | 2 => 0x5 | _ => 0 end%N.
+Definition pin19_bear (r : positive) : N := match r with 1%positive => 0x5%N | 2%positive => 0x2%N | _ => 0%N end.
+Definition pin19_exp_raw : list rawrule := [mkraw [0;1]%N 0 None 1; mkraw [2;1]%N 0 None 0].
+Definition pin19_exp : list rule := expand pin19_exp_raw.
+(* the repair: give the structural rule the same default *)
+Definition pin19_exp_fixed : list rule := expand [mkraw [0;1]%N 0 None 1; mkraw [2;1]%N 0 None 1].
+
+(* with the algorithm passed positionally the KronSum rule (index 2) is selected; with it omitted (or passed by
+   keyword, which plum does not dispatch on) the generic one-argument signature (index 1) is *)
+Theorem pinned_exp_kronsum_refuted :
+  resolve pin19_le pin19_bear pin19_exp (dargs None [1%positive] [Pos 2%positive]) = Unique 2 /\
+  resolve pin19_le pin19_bear pin19_exp (dargs None [1%positive] [Omit]) = Unique 1 /\
+  resolve pin19_le pin19_bear pin19_exp (dargs None [1%positive] [Kw 2%positive]) = Unique 1.
+Proof. vm_compute. repeat split. Qed.
+
+Theorem pinned_exp_kronsum_repaired :
+  resolve pin19_le pin19_bear pin19_exp_fixed (dargs None [1%positive] [Pos 2%positive]) = Unique 2 /\
+  resolve pin19_le pin19_bear pin19_exp_fixed (dargs None [1%positive] [Omit]) = Unique 3 /\
+  resolve pin19_le pin19_bear pin19_exp_fixed (dargs None [1%positive] [Kw 2%positive]) = Unique 3.
+Proof. vm_compute. repeat split. Qed.
